@@ -1,12 +1,43 @@
-"""C01 - compiled Lua behaves as the Sylt source denotes (translation validation with symbolic inputs)."""
-import time
+"""C01 - compiled Lua behaves as the Sylt source denotes (translation validation with symbolic inputs).
+Also runs the engine's self-validation: every program of the repo's own corpus (tests/**/*.sy) is compiled by the real
+compiler and executed by E-LUA in concrete mode; the outcome must agree with the expectation written in the file
+(`// error: #...` = fails at run time, otherwise runs to completion with every `<=>` holding)."""
+import multiprocessing as mp, os, time
 from vlib import common
 from checks import tvrun, templates_core, gen
+
+
+def _val(job):
+    from luasym import runner
+    sylt, f, cwd = job
+    def go():
+        try: return (f,) + tuple(runner.validate_one(sylt, f, cwd))
+        except Exception as e: return (f, "ENGINE-ERROR", "%s: %s" % (type(e).__name__, str(e)[:200]))
+    return runner.in_thread(go)
+
+
+def corpus_validation(sylt):
+    from luasym import runner
+    root = common.repo_path("tests")
+    files = runner.corpus(root)
+    with mp.get_context("fork").Pool(16) as pool: res = pool.map(_val, [(sylt, f, common.REPO) for f in files], chunksize=4)
+    stats = {}; problems = []
+    for f, v, msg in res:
+        stats[v] = stats.get(v, 0) + 1
+        if "DISAGREE" in v or v == "ENGINE-ERROR" or v.startswith("lua-does"): problems.append((os.path.relpath(f, root), v, msg[:200]))
+    return stats, problems
 
 
 def run(tier):
     t0 = time.time()
     art = common.artifacts()
+    stats, problems = corpus_validation(art["sylt"])
     templates = list(templates_core.CATALOGUE)
     templates += gen.random_templates(common.seed(), 40 if tier == "quick" else 600)
-    return tvrun.tv_check("C01", tier, templates, art["sylt"], t0, assumptions=tvrun.TV_ASSUMPTIONS)
+    for f, v, msg in problems: print("NOTE corpus program %s: %s %s" % (f, v, msg))
+    rc = tvrun.tv_check("C01", tier, templates, art["sylt"], t0, assumptions=tvrun.TV_ASSUMPTIONS,
+                        extra_cov={"engine_self_validation": {"corpus": "tests/**/*.sy compiled by the real compiler, run by E-LUA (concrete mode)", "outcomes": stats, "disagreements": problems[:10]}})
+    if problems and rc == 0:
+        print("INCONCLUSIVE property=C01 E-LUA and the expectations written in %d corpus programs disagree (engine fidelity or a compiler regression): %s" % (len(problems), problems[:3]))
+        return 2
+    return rc
